@@ -529,6 +529,32 @@ def glue11(ctx: Ctx) -> None:
                    "cache then skips it, and its glue runs only after some unrelated later import", construct="installer returns with glue still pending")
 
 
+def glue14(ctx: Ctx) -> None:
+    """GLUE-14 what the package does not know how to unwrap stays irreducible: no module of the package registers a catch-all
+    (`object`) implementation of unwrap_stackitem / unwrap_context that can return something.  The default "None: a leaf" is what
+    ends every chain; a catch-all that follows referents or attributes of arbitrary objects continues chains through objects
+    that do not forward send()/throw() (enumerate(gen), filter(f, gen), ...) and replaces the leaf"""
+    n = 0
+    for mod in ctx.P.analysed_mods():
+        for q, fn in mod.defs.items():
+            if not isinstance(fn, (ast.FunctionDef, ast.AsyncFunctionDef)):
+                continue
+            for d in fn.decorator_list:
+                if isinstance(d, ast.Call) and isinstance(d.func, ast.Attribute) and d.func.attr == "register" and norm(d.func.value) in ("unwrap_stackitem", "unwrap_context", "_customization.unwrap_stackitem", "_customization.unwrap_context"):
+                    n += 1
+                    if any(norm(a) in ("object", "builtins.object") for a in d.args):
+                        rets = [r for r in walk_scope(fn) if isinstance(r, ast.Return) and r.value is not None and not (isinstance(r.value, ast.Constant) and r.value.value is None)]
+                        if rets:
+                            ctx.R.fail("GLUE-14", mod, fn, f"{mod.name}.{q} is registered as the {norm(d.func.value)} implementation for `object` and can return `{norm(rets[0].value)[:50]}`: it replaces the "
+                                       "'irreducible' default for every type nobody registered, so chains continue through (and leaves are replaced by) whatever such objects happen to refer to",
+                                       construct=f"{norm(d.func.value)}.register(object): {q}")
+                        else:
+                            ctx.R.ok("GLUE-14", f"{mod.name}.{q}: catch-all that only returns None")
+    if n < 8:
+        raise AnalysisError(f"GLUE-14: only {n} unwrap hook registrations found")
+    ctx.R.ok("GLUE-14", f"{n} unwrap_stackitem / unwrap_context registrations", "none for `object` that can return something")
+
+
 def glue13(ctx: Ctx) -> None:
     """GLUE-13 the look-up of the module-provided glue reference tolerates every kind of sys.modules entry: the scan walks a
     snapshot, so by the time a name's turn comes the module may be gone (KeyError), the entry may be any object (no __dict__), or
